@@ -138,6 +138,7 @@ package transaction
 //@   requires modules: st != nil && st.Accounts != nil && st.Coins != nil && st.Commission != nil && st.Checks != nil && st.Accounts.bus != nil && (deliver ==> st.Coins.bus != nil)
 //@   requires fundsmodule: st.FrozenFunds != nil && (deliver ==> st.FrozenFunds.bus != nil && st.FrozenFunds.bus == st.Accounts.bus)
 //@   requires stakemodules: st.Candidates != nil && st.Waitlist != nil && (deliver ==> st.Candidates.bus == st.Accounts.bus && st.Waitlist.bus == st.Accounts.bus)
+//@   requires appmodule: st.App != nil
 //@   # C27: the price handed to every Run is gas price x (type price + bytes x byte price) when the table is in the base coin
 //@   requires [C27] feeprice: tbl.Coin == 0 ==> arg4.val == arg0.GasPrice * (typePrice(recv, tbl) + (len(arg0.Payload) + len(arg0.ServiceData)) * tbl.PayloadByte.val)
 //@   requires feesign: arg4.val >= 0 && arg4 != arg2
@@ -149,11 +150,12 @@ package transaction
 //@   ensures [C03] rejectedfunds: result.Code != 0 || !deliver ==> ffModel == old(ffModel) && allof(frozenfunds.Model.List) == old(allof(frozenfunds.Model.List))
 //@   ensures [C03] rejectedstakes: result.Code != 0 || !deliver ==> stakeObj == old(stakeObj) && allof(candidates.stake.Value) == old(allof(candidates.stake.Value)) && wlItem == old(wlItem)
 //@   ensures [C03] rejectedcandidates: result.Code != 0 || !deliver ==> allof(candidates.Candidate.Status) == old(allof(candidates.Candidate.Status)) && allof(candidates.Candidate.JailedUntil) == old(allof(candidates.Candidate.JailedUntil))
+//@   ensures [C03] rejectedregistry: result.Code != 0 || !deliver ==> coinExists == old(coinExists) && symTaken == old(symTaken) && coinMaxOf == old(coinMaxOf) && coinModel == old(coinModel) && symInfoOf == old(symInfoOf) && allof(app.Model.CoinsCount) == old(allof(app.Model.CoinsCount))
 //@   ensures [C04,C03] accepted: result.Code == 0 && deliver ==> nonce(accs, senderOf(arg0)) == arg0.Nonce
 //@   # C05: only the sender's own balances can go down (a check redemption also debits the check's issuer)
 //@   ensures [C05] onlysender: arg0.Type != TypeRedeemCheck ==> forall c types.CoinID, a types.Address :: a != senderOf(arg0) ==> bal(accs, c, a) >= old(bal(accs, c, a))
 //@   ensures [C03] rejectedchecks: result.Code != 0 || !deliver ==> forall h types.Hash :: (h in st.Checks.usedChecks) <==> old(h in st.Checks.usedChecks)
-//@   modifies bal, nonce, ledgerDelta, ledgerVolume, coinVolume, coinReserve, swapAbs, otherState, arg2.val, accountsCache, coinsCache, commissionCache, mapof(st.Checks.usedChecks), ffModel, ffCache, ffDirtyMarks, frozenfunds.Model.List, stakeObj, candidates.stake.Value, candCache, candDirtyMarks, wlItem, wlCache, candidates.Candidate.Status, candidates.Candidate.isDirty
+//@   modifies bal, nonce, ledgerDelta, ledgerVolume, coinVolume, coinReserve, swapAbs, otherState, arg2.val, accountsCache, coinsCache, commissionCache, mapof(st.Checks.usedChecks), ffModel, ffCache, ffDirtyMarks, frozenfunds.Model.List, stakeObj, candidates.stake.Value, candCache, candDirtyMarks, wlItem, wlCache, candidates.Candidate.Status, candidates.Candidate.isDirty, coinExists, symTaken, coinMaxOf, coinModel, symInfoOf, app.Model.CoinsCount, app.App.model, appDirtyMarks
 
 //@ func (*ExecutorV3).RunTx
 //@   serves C04 C03 C26 C27 C05
@@ -163,8 +165,8 @@ package transaction
 //@   let accs = typeis(context, "*state.CheckState") ? as(context, "*state.CheckState").state.Accounts : as(context, "*state.State").Accounts
 //@   requires e != nil && rewardPool != nil && currentMempool != nil
 //@   requires typeis(context, "*state.CheckState") || typeis(context, "*state.State")
-//@   requires typeis(context, "*state.CheckState") ==> as(context, "*state.CheckState") != nil && as(context, "*state.CheckState").state != nil && as(context, "*state.CheckState").state.Accounts != nil && as(context, "*state.CheckState").state.Coins != nil && as(context, "*state.CheckState").state.Commission != nil && as(context, "*state.CheckState").state.Checks != nil && as(context, "*state.CheckState").state.Accounts.bus != nil && as(context, "*state.CheckState").state.FrozenFunds != nil && as(context, "*state.CheckState").state.Candidates != nil && as(context, "*state.CheckState").state.Waitlist != nil
-//@   requires typeis(context, "*state.State") ==> as(context, "*state.State") != nil && as(context, "*state.State").Accounts != nil && as(context, "*state.State").Coins != nil && as(context, "*state.State").Commission != nil && as(context, "*state.State").Checks != nil && as(context, "*state.State").Accounts.bus != nil && as(context, "*state.State").Coins.bus != nil && as(context, "*state.State").FrozenFunds != nil && as(context, "*state.State").FrozenFunds.bus != nil && as(context, "*state.State").FrozenFunds.bus == as(context, "*state.State").Accounts.bus && as(context, "*state.State").Candidates != nil && as(context, "*state.State").Waitlist != nil && as(context, "*state.State").Candidates.bus == as(context, "*state.State").Accounts.bus && as(context, "*state.State").Waitlist.bus == as(context, "*state.State").Accounts.bus
+//@   requires typeis(context, "*state.CheckState") ==> as(context, "*state.CheckState") != nil && as(context, "*state.CheckState").state != nil && as(context, "*state.CheckState").state.Accounts != nil && as(context, "*state.CheckState").state.Coins != nil && as(context, "*state.CheckState").state.Commission != nil && as(context, "*state.CheckState").state.Checks != nil && as(context, "*state.CheckState").state.Accounts.bus != nil && as(context, "*state.CheckState").state.FrozenFunds != nil && as(context, "*state.CheckState").state.Candidates != nil && as(context, "*state.CheckState").state.Waitlist != nil && as(context, "*state.CheckState").state.App != nil
+//@   requires typeis(context, "*state.State") ==> as(context, "*state.State") != nil && as(context, "*state.State").Accounts != nil && as(context, "*state.State").Coins != nil && as(context, "*state.State").Commission != nil && as(context, "*state.State").Checks != nil && as(context, "*state.State").Accounts.bus != nil && as(context, "*state.State").Coins.bus != nil && as(context, "*state.State").FrozenFunds != nil && as(context, "*state.State").FrozenFunds.bus != nil && as(context, "*state.State").FrozenFunds.bus == as(context, "*state.State").Accounts.bus && as(context, "*state.State").Candidates != nil && as(context, "*state.State").Waitlist != nil && as(context, "*state.State").Candidates.bus == as(context, "*state.State").Accounts.bus && as(context, "*state.State").Waitlist.bus == as(context, "*state.State").Accounts.bus && as(context, "*state.State").App != nil
 //@   requires nowrap: nonce(accs, snd) < 18446744073709551615
 //@   ensures [C04] chain: result.Code == 0 ==> tx.ChainID == types.CurrentChainID
 //@   ensures [C04] inorder: result.Code == 0 ==> tx.Nonce == old(nonce(accs, snd)) + 1
@@ -175,6 +177,7 @@ package transaction
 //@   ensures [C03] failedfunds: result.Code != 0 || !deliver ==> (ffModel == old(ffModel) && allof(frozenfunds.Model.List) == old(allof(frozenfunds.Model.List))) || lateFailure
 //@   ensures [C03] failedstakes: result.Code != 0 || !deliver ==> (stakeObj == old(stakeObj) && allof(candidates.stake.Value) == old(allof(candidates.stake.Value)) && wlItem == old(wlItem)) || lateFailure
 //@   ensures [C03] failedcandidates: result.Code != 0 || !deliver ==> (allof(candidates.Candidate.Status) == old(allof(candidates.Candidate.Status)) && allof(candidates.Candidate.JailedUntil) == old(allof(candidates.Candidate.JailedUntil))) || lateFailure
+//@   ensures [C03] failedregistry: result.Code != 0 || !deliver ==> (coinExists == old(coinExists) && symTaken == old(symTaken) && allof(app.Model.CoinsCount) == old(allof(app.Model.CoinsCount))) || lateFailure
 //@   let cc = (tx.Type == TypeSellAllSwapPool || tx.Type == TypeSellAllCoin) ? dataCoin(tx.decodedData) : tx.GasCoin
 //@   ensures [C03] failedbalances: result.Code != 0 ==> select(bal, accs) == store(select(old(bal), accs), cc, select(select(bal, accs), cc)) || lateFailure
 //@   # C05: a multisig transaction is accepted only with signatures of pairwise distinct signers
@@ -749,3 +752,58 @@ package transaction
 //@   modifies nothing
 //@ func iface CalculateCoin.BaseOrHasReserve
 //@   modifies nothing
+
+//@ # ---------------------------------------------------------------- C22: only the ticker owner mints, within the maximum supply
+//@ func (MintTokenData).basicCheck
+//@   serves C22 C05 C02
+//@   requires tx != nil && context != nil && context.state != nil && context.state.Coins != nil && data.Value != nil && senderKnown(tx)
+//@   let cs = context.state.Coins
+//@   let m = coinModel(cs, data.Coin)
+//@   ensures failcode: result != nil ==> result.Code != 0
+//@   ensures exists: result == nil ==> data.Coin == 0 || coinExists(cs, data.Coin)
+//@   ensures [C02,C22] supply: result == nil && data.Coin != 0 ==> coinVolume(cs, data.Coin) + data.Value.val <= coinMaxOf(cs, data.Coin)
+//@   ensures [C22,C05] owneronly: result == nil && data.Coin != 0 ==> symInfoOf(cs, modelSymbol(m)) != nil && deref(symInfoOf(cs, modelSymbol(m)).COwnerAddress) == senderOf(tx) && modelVersion(m) == 0
+//@   ensures [C22] mintable: result == nil && data.Coin != 0 ==> modelMintable(m)
+//@   ensures stillknown: senderKnown(tx)
+//@   modifies coinsCache, senderKnown(tx)
+
+//@ func (MintTokenData).Run
+//@   serves C22 C02 C03 C04 C05 C27
+//@   implements iface Data.Run
+//@   assumes wf: data.Value != nil && data.Value.val >= 0 && data.Value != rewardPool
+//@   assumes typed: tx.Type == TypeMintToken
+//@   let snd = senderOf(tx)
+//@   let m = coinModel(st.Coins, data.Coin)
+//@   ensures [C22,C05] owneronly: result.Code == 0 && data.Coin != 0 ==> symInfoOf(st.Coins, modelSymbol(m)) != nil && deref(symInfoOf(st.Coins, modelSymbol(m)).COwnerAddress) == snd && modelVersion(m) == 0 && modelMintable(m)
+//@   ensures [C02,C22] minted: result.Code == 0 && deliver && data.Coin != 0 && tx.GasCoin == 0 ==> coinVolume(st.Coins, data.Coin) == old(coinVolume(st.Coins, data.Coin)) + data.Value.val && coinVolume(st.Coins, data.Coin) <= coinMaxOf(st.Coins, data.Coin) && bal(accs, data.Coin, snd) == old(bal(accs, data.Coin, snd)) + data.Value.val
+//@   covers delivered: result.Code == 0 && deliver && tx.GasCoin == 0 && data.Coin != 0
+//@   loop 0 invariant grows: forall c types.CoinID, a types.Address :: bal(accs, c, a) >= old(bal(accs, c, a))
+//@   loop 0 invariant frame: nonce == old(nonce) && otherState == old(otherState) && rewardPool.val == old(rewardPool.val) && coinVolume == old(coinVolume) && coinReserve == old(coinReserve)
+
+//@ # ---------------------------------------------------------------- C22: a new token gets the next unused id and a free ticker
+//@ func (CreateTokenData).basicCheck
+//@   serves C22
+//@   requires context != nil && context.state != nil && context.state.Coins != nil
+//@   ensures failcode: result != nil ==> result.Code != 0
+//@   ensures [C22] freeticker: result == nil ==> !symTaken(context.state.Coins, data.Symbol)
+//@   ensures amounts: result == nil ==> data.InitialAmount != nil && data.MaxSupply != nil && data.InitialAmount.val <= data.MaxSupply.val
+//@   modifies coinsCache
+//@ func checkAllowSymbol
+//@   trusted
+//@   modifies nothing
+//@ func (CreateTokenData).Run
+//@   serves C22 C03 C04 C05 C27
+//@   implements iface Data.Run
+//@   assumes wf: data.InitialAmount != nil ==> data.InitialAmount.val >= 0 && data.InitialAmount != rewardPool
+//@   assumes typed: tx.Type == TypeCreateToken
+//@   # state invariant (assumed): no coin exists with an id above the counter, and the counter has not wrapped
+//@   assumes counter: st.App.model != nil && 0 <= st.App.model.CoinsCount && st.App.model.CoinsCount < 4294967295 && forall i types.CoinID :: i > st.App.model.CoinsCount ==> !coinExists(st.Coins, i)
+//@   let snd = senderOf(tx)
+//@   let n = old(st.App.model.CoinsCount)
+//@   ensures [C22] freshid: result.Code == 0 && deliver ==> st.App.model.CoinsCount == n + 1 && !old(coinExists(st.Coins, n + 1)) && coinExists(st.Coins, n + 1)
+//@   ensures [C22] othersuntouched: forall i types.CoinID :: i != n + 1 ==> (coinExists(st.Coins, i) <==> old(coinExists(st.Coins, i)))
+//@   ensures [C22] uniqueticker: result.Code == 0 ==> !old(symTaken(st.Coins, data.Symbol))
+//@   ensures [C22] supply: result.Code == 0 && deliver && tx.GasCoin == 0 ==> coinVolume(st.Coins, n + 1) == data.InitialAmount.val && coinVolume(st.Coins, n + 1) <= coinMaxOf(st.Coins, n + 1) && bal(accs, n + 1, snd) == old(bal(accs, n + 1, snd)) + data.InitialAmount.val
+//@   covers delivered: result.Code == 0 && deliver && tx.GasCoin == 0
+//@   loop 0 invariant grows: forall c types.CoinID, a types.Address :: bal(accs, c, a) >= old(bal(accs, c, a))
+//@   loop 0 invariant frame: nonce == old(nonce) && otherState == old(otherState) && rewardPool.val == old(rewardPool.val) && coinVolume == old(coinVolume) && coinReserve == old(coinReserve) && coinExists == old(coinExists) && symTaken == old(symTaken) && allof(app.Model.CoinsCount) == old(allof(app.Model.CoinsCount)) && st.App.model == old(st.App.model)
